@@ -35,6 +35,12 @@ type State struct {
 	List map[string]map[string][]string // bucket -> key -> elements
 	Set  map[string]map[string]map[string]bool
 	ZSet map[string]map[string]zMember
+
+	// applyDeferred is set while the effects of a Deferred transaction are
+	// applied at commit: an effect whose operation would be refused on the
+	// then-current state (open-convention domain) follows the system's own
+	// convention there, because no result can be observed at that moment.
+	applyDeferred bool
 }
 
 func New() *State {
@@ -449,6 +455,11 @@ func (s *State) evalList(op prog.Op) Outcome {
 		_, removed := lrem(l, op.I, op.Val)
 		eff := func(t *State) {
 			cur, _ := t.list(op.B, op.Key)
+			if t.applyDeferred {
+				if op.I > len(cur) {
+					return // refused at apply time (count larger than the list): no effect
+				}
+			}
 			nl, _ := lrem(cur, op.I, op.Val)
 			setList(t, op.B, op.Key, nl)
 		}
@@ -493,6 +504,26 @@ func (s *State) evalList(op prog.Op) Outcome {
 		}
 		eff := func(t *State) {
 			cur, _ := t.list(op.B, op.Key)
+			if t.applyDeferred && !inRange(len(cur), op.I, op.J) {
+				// out-of-range bounds met at apply time: the end is clamped,
+				// a start beyond the end is refused (no effect)
+				n := len(cur)
+				st, en := op.I, op.J
+				if st < 0 {
+					st += n
+				}
+				if en < 0 {
+					en += n
+				}
+				if en >= n {
+					en = n - 1
+				}
+				if st < 0 || st > en {
+					return
+				}
+				setList(t, op.B, op.Key, append([]string(nil), cur[st:en+1]...))
+				return
+			}
 			a, b, ok := normRange(len(cur), op.I, op.J)
 			if ok {
 				setList(t, op.B, op.Key, append([]string(nil), cur[a:b+1]...))
@@ -674,12 +705,12 @@ func (s *State) evalSet(op prog.Op) Outcome {
 			// non-member: state must not change; return value not judged
 			return Outcome{Any: true, ErrOK: true}
 		}
+		// membership was established when the call was evaluated; the effect
+		// is a removal from the source followed by an addition to the destination
 		return val("true", func(t *State) {
-			src, ok := t.set(op.B, op.Key)
-			if !ok || !src[op.Val] {
-				return
+			if src, ok := t.set(op.B, op.Key); ok {
+				delete(src, op.Val)
 			}
-			delete(src, op.Val)
 			ensureSet(t, b2, op.Key2)[op.Val] = true
 		})
 	}
@@ -800,13 +831,6 @@ func (s *State) evalZSet(op prog.Op) Outcome {
 		if !bucketExists {
 			return errOnly()
 		}
-		if n == 0 {
-			return Outcome{Vals: []string{"nil"}, ErrOK: true}
-		}
-		e := ents[0]
-		if op.K == "zpopmax" || op.K == "zpeekmax" {
-			e = ents[n-1]
-		}
 		var eff func(*State)
 		if op.K == "zpopmax" {
 			eff = func(t *State) {
@@ -823,6 +847,15 @@ func (s *State) evalZSet(op prog.Op) Outcome {
 					delete(t.ZSet[op.B], es[0].Key)
 				}
 			}
+		}
+		if n == 0 {
+			// nothing to return; a pop is still a pop of whatever is the
+			// extreme when it is applied (a no-op under strict semantics)
+			return Outcome{Vals: []string{"nil"}, ErrOK: true, Effect: eff}
+		}
+		e := ents[0]
+		if op.K == "zpopmax" || op.K == "zpeekmax" {
+			e = ents[n-1]
 		}
 		return val(EncNode(e.Key, e.Score, e.Val), eff)
 	case "zcard":
@@ -1018,9 +1051,11 @@ func (t *Tx) Step(op prog.Op, now int64, got prog.Res, writable bool) error {
 func (t *Tx) Commit() *State {
 	if t.Deferred {
 		ns := t.base.Clone()
+		ns.applyDeferred = true
 		for _, e := range t.effects {
 			e(ns)
 		}
+		ns.applyDeferred = false
 		return ns
 	}
 	return t.work
